@@ -432,11 +432,49 @@ theorem choose_tot {h : Heap} (g : Bool) {alt c : HM HBI} {A C : BI} (ha : Tot a
   · simpa using hc
   · simpa using ha
 
+/-- `choose`, each branch needed only when it is taken -/
+theorem choose_tot' {h : Heap} (g : Bool) {alt c : HM HBI} {A C : BI}
+    (ha : g = true → Tot alt h (BIIs A)) (hc : g = false → Tot c h (BIIs C)) :
+    Tot (choose g alt c) h (BIIs (if g then A else C)) := by
+  unfold choose
+  cases g
+  · simpa using hc rfl
+  · simpa using ha rfl
+
+/-- `bigIntQuo` with a non-zero divisor does not panic -/
+theorem combineQuo_tot (h : Heap) (p q : Option Addr) (hq : (valO h q).getD 0 ≠ 0) :
+    Tot (combineQuo p q) h (BIIs (.fin (bigQuo ((valO h p).getD 0) ((valO h q).getD 0)))) := by
+  unfold combineQuo
+  refine Tot.bind_loadB _ ?_
+  refine Tot.bind_loadB _ ?_
+  refine Tot.ite (fun c => absurd c hq) (fun _ => ?_)
+  refine Tot.bind (Tot.alloc _) ?_
+  rintro z h2 x2 ⟨rfl, s2, g2⟩
+  refine Tot.pure _ ⟨?_, ?_⟩
+  · simp only [VBI_fin]; omega
+  · simp only [valBI, g2]
+
+/-- the bounds of a negative divisor part are non-zero -/
+def NegDiv (Y : IR) : Prop := Y.hi.getD 0 ≠ 0 ∧ ∀ v, Y.lo = some v → v ≠ 0
+/-- the bounds of a positive divisor part are non-zero -/
+def PosDiv (Y : IR) : Prop := Y.lo.getD 0 ≠ 0 ∧ ∀ v, Y.hi = some v → v ≠ 0
+
 theorem posInf_tot (h : Heap) : Tot (Pure.pure HBI.posInf : HM HBI) h (BIIs .posInf) :=
   Tot.pure _ ⟨by simp, rfl⟩
 
 theorem negInf_tot (h : Heap) : Tot (Pure.pure HBI.negInf : HM HBI) h (BIIs .negInf) :=
   Tot.pure _ ⟨by simp, rfl⟩
+
+/-- transport of a divisor fact along a heap extension -/
+theorem divisor_ne_zero {h h1 : Heap} {q : Option Addr} (vq : VO h q) (e : Ext h h1)
+    (hq : (valO h q).getD 0 ≠ 0) : (valO h1 q).getD 0 ≠ 0 := by
+  rw [valO_ext vq e]; exact hq
+
+theorem getD_ne_zero_of_forall {h : Heap} {q : Option Addr} (hne : q.isNone = false)
+    (hall : ∀ v, valO h q = some v → v ≠ 0) : (valO h q).getD 0 ≠ 0 := by
+  cases q with
+  | none => simp at hne
+  | some a => exact hall _ rfl
 
 /-! ### the sign-definite blocks: same values as the blocks of the value model -/
 
@@ -499,62 +537,6 @@ theorem mulPP_tot (f : Int → Int → Int) :
   simp only [Interval.mulPP, viewAt_eq, valO]
   cases a.lo <;> cases a.hi <;> cases b.lo <;> cases b.hi <;> simp
 
-theorem quoNN_tot :
-    Tot (quoNN a b ret) h
-      (PairIs (Interval.quoNN (viewAt h a) (viewAt h b) (valP h ret))) := by
-  unfold quoNN
-  refine Tot.bind (stepHi_tot vr (choose_tot _ (posInf_tot h) (combine_tot h bigQuo a.lo b.hi))) ?_
-  rintro r1 h1 x1 ⟨v1, e1⟩
-  refine Tot.mono (stepLo_tot v1 (choose_tot _ (newBI_tot h1 0) (combine_tot h1 bigQuo a.hi b.lo))) ?_
-  rintro r h2 x2 ⟨v2, e2⟩
-  refine ⟨v2, ?_⟩
-  rw [e2, e1]
-  simp only [valO_ext va.1 x1, valO_ext va.2 x1, valO_ext vb.1 x1, valO_ext vb.2 x1]
-  simp only [Interval.quoNN, viewAt_eq, valO]
-  cases a.lo <;> cases a.hi <;> cases b.lo <;> cases b.hi <;> simp
-
-theorem quoNP_tot :
-    Tot (quoNP a b ret) h
-      (PairIs (Interval.quoNP (viewAt h a) (viewAt h b) (valP h ret))) := by
-  unfold quoNP
-  refine Tot.bind (stepLo_tot vr (choose_tot _ (negInf_tot h) (combine_tot h bigQuo a.lo b.lo))) ?_
-  rintro r1 h1 x1 ⟨v1, e1⟩
-  refine Tot.mono (stepHi_tot v1 (choose_tot _ (newBI_tot h1 0) (combine_tot h1 bigQuo a.hi b.hi))) ?_
-  rintro r h2 x2 ⟨v2, e2⟩
-  refine ⟨v2, ?_⟩
-  rw [e2, e1]
-  simp only [valO_ext va.1 x1, valO_ext va.2 x1, valO_ext vb.1 x1, valO_ext vb.2 x1]
-  simp only [Interval.quoNP, viewAt_eq, valO]
-  cases a.lo <;> cases a.hi <;> cases b.lo <;> cases b.hi <;> simp
-
-theorem quoPN_tot :
-    Tot (quoPN a b ret) h
-      (PairIs (Interval.quoPN (viewAt h a) (viewAt h b) (valP h ret))) := by
-  unfold quoPN
-  refine Tot.bind (stepLo_tot vr (choose_tot _ (negInf_tot h) (combine_tot h bigQuo a.hi b.hi))) ?_
-  rintro r1 h1 x1 ⟨v1, e1⟩
-  refine Tot.mono (stepHi_tot v1 (choose_tot _ (newBI_tot h1 0) (combine_tot h1 bigQuo a.lo b.lo))) ?_
-  rintro r h2 x2 ⟨v2, e2⟩
-  refine ⟨v2, ?_⟩
-  rw [e2, e1]
-  simp only [valO_ext va.1 x1, valO_ext va.2 x1, valO_ext vb.1 x1, valO_ext vb.2 x1]
-  simp only [Interval.quoPN, viewAt_eq, valO]
-  cases a.lo <;> cases a.hi <;> cases b.lo <;> cases b.hi <;> simp
-
-theorem quoPP_tot :
-    Tot (quoPP a b ret) h
-      (PairIs (Interval.quoPP (viewAt h a) (viewAt h b) (valP h ret))) := by
-  unfold quoPP
-  refine Tot.bind (stepHi_tot vr (choose_tot _ (posInf_tot h) (combine_tot h bigQuo a.hi b.lo))) ?_
-  rintro r1 h1 x1 ⟨v1, e1⟩
-  refine Tot.mono (stepLo_tot v1 (choose_tot _ (newBI_tot h1 0) (combine_tot h1 bigQuo a.lo b.hi))) ?_
-  rintro r h2 x2 ⟨v2, e2⟩
-  refine ⟨v2, ?_⟩
-  rw [e2, e1]
-  simp only [valO_ext va.1 x1, valO_ext va.2 x1, valO_ext vb.1 x1, valO_ext vb.2 x1]
-  simp only [Interval.quoPP, viewAt_eq, valO]
-  cases a.lo <;> cases a.hi <;> cases b.lo <;> cases b.hi <;> simp
-
 theorem rshN_tot :
     Tot (rshN a b ret) h
       (PairIs (Interval.rshN (viewAt h a) (viewAt h b) (valP h ret))) := by
@@ -583,6 +565,485 @@ theorem rshP_tot :
   simp only [Interval.rshP, viewAt_eq, valO]
   cases a.lo <;> cases a.hi <;> cases b.lo <;> cases b.hi <;> simp
 
+theorem quoNN_tot (nd : NegDiv (viewAt h b)) :
+    Tot (quoNN a b ret) h
+      (PairIs (Interval.quoNN (viewAt h a) (viewAt h b) (valP h ret))) := by
+  unfold quoNN
+  refine Tot.bind (stepHi_tot vr (choose_tot' _ (fun _ => posInf_tot h)
+    (fun _ => combineQuo_tot h a.lo b.hi nd.1))) ?_
+  rintro r1 h1 x1 ⟨v1, e1⟩
+  refine Tot.mono (stepLo_tot v1 (choose_tot' _ (fun _ => newBI_tot h1 0)
+    (fun hg => combineQuo_tot h1 a.hi b.lo (divisor_ne_zero vb.1 x1
+      (getD_ne_zero_of_forall hg nd.2))))) ?_
+  rintro r h2 x2 ⟨v2, e2⟩
+  refine ⟨v2, ?_⟩
+  rw [e2, e1]
+  simp only [valO_ext va.1 x1, valO_ext va.2 x1, valO_ext vb.1 x1, valO_ext vb.2 x1]
+  simp only [Interval.quoNN, viewAt_eq, valO]
+  cases a.lo <;> cases a.hi <;> cases b.lo <;> cases b.hi <;> simp
+
+theorem quoNP_tot (pd : PosDiv (viewAt h b)) :
+    Tot (quoNP a b ret) h
+      (PairIs (Interval.quoNP (viewAt h a) (viewAt h b) (valP h ret))) := by
+  unfold quoNP
+  refine Tot.bind (stepLo_tot vr (choose_tot' _ (fun _ => negInf_tot h)
+    (fun _ => combineQuo_tot h a.lo b.lo pd.1))) ?_
+  rintro r1 h1 x1 ⟨v1, e1⟩
+  refine Tot.mono (stepHi_tot v1 (choose_tot' _ (fun _ => newBI_tot h1 0)
+    (fun hg => combineQuo_tot h1 a.hi b.hi (divisor_ne_zero vb.2 x1
+      (getD_ne_zero_of_forall hg pd.2))))) ?_
+  rintro r h2 x2 ⟨v2, e2⟩
+  refine ⟨v2, ?_⟩
+  rw [e2, e1]
+  simp only [valO_ext va.1 x1, valO_ext va.2 x1, valO_ext vb.1 x1, valO_ext vb.2 x1]
+  simp only [Interval.quoNP, viewAt_eq, valO]
+  cases a.lo <;> cases a.hi <;> cases b.lo <;> cases b.hi <;> simp
+
+theorem quoPN_tot (nd : NegDiv (viewAt h b)) :
+    Tot (quoPN a b ret) h
+      (PairIs (Interval.quoPN (viewAt h a) (viewAt h b) (valP h ret))) := by
+  unfold quoPN
+  refine Tot.bind (stepLo_tot vr (choose_tot' _ (fun _ => negInf_tot h)
+    (fun _ => combineQuo_tot h a.hi b.hi nd.1))) ?_
+  rintro r1 h1 x1 ⟨v1, e1⟩
+  refine Tot.mono (stepHi_tot v1 (choose_tot' _ (fun _ => newBI_tot h1 0)
+    (fun hg => combineQuo_tot h1 a.lo b.lo (divisor_ne_zero vb.1 x1
+      (getD_ne_zero_of_forall hg nd.2))))) ?_
+  rintro r h2 x2 ⟨v2, e2⟩
+  refine ⟨v2, ?_⟩
+  rw [e2, e1]
+  simp only [valO_ext va.1 x1, valO_ext va.2 x1, valO_ext vb.1 x1, valO_ext vb.2 x1]
+  simp only [Interval.quoPN, viewAt_eq, valO]
+  cases a.lo <;> cases a.hi <;> cases b.lo <;> cases b.hi <;> simp
+
+theorem quoPP_tot (pd : PosDiv (viewAt h b)) :
+    Tot (quoPP a b ret) h
+      (PairIs (Interval.quoPP (viewAt h a) (viewAt h b) (valP h ret))) := by
+  unfold quoPP
+  refine Tot.bind (stepHi_tot vr (choose_tot' _ (fun _ => posInf_tot h)
+    (fun _ => combineQuo_tot h a.hi b.lo pd.1))) ?_
+  rintro r1 h1 x1 ⟨v1, e1⟩
+  refine Tot.mono (stepLo_tot v1 (choose_tot' _ (fun _ => newBI_tot h1 0)
+    (fun hg => combineQuo_tot h1 a.lo b.hi (divisor_ne_zero vb.2 x1
+      (getD_ne_zero_of_forall hg pd.2))))) ?_
+  rintro r h2 x2 ⟨v2, e2⟩
+  refine ⟨v2, ?_⟩
+  rw [e2, e1]
+  simp only [valO_ext va.1 x1, valO_ext va.2 x1, valO_ext vb.1 x1, valO_ext vb.2 x1]
+  simp only [Interval.quoPP, viewAt_eq, valO]
+  cases a.lo <;> cases a.hi <;> cases b.lo <;> cases b.hi <;> simp
+
 end blocks
+
+/-! ### `split3Ways` -/
+
+/-- what `split3Ways` returns: valid pointer ranges whose values, with the three flags, are the
+value model's `split3` -/
+def Split3Is (v : IR × IR × Bool × Bool × Bool) (r : HIR × HIR × Bool × Bool × Bool)
+    (h' : Heap) : Prop :=
+  VR h' r.1 ∧ VR h' r.2.1 ∧
+    (viewAt h' r.1, viewAt h' r.2.1, r.2.2.1, r.2.2.2.1, r.2.2.2.2) = v
+
+/-- the tests and the two new bounds of `split3`, named (the value model has them inline) -/
+def posLoC (X : IR) : Bool := match X.lo with | some a => decide (a > 0) | none => false
+def negHiC (X : IR) : Bool := match X.hi with | some b => decide (b < 0) | none => false
+def negHiV (X : IR) : Int := match X.hi with | some b => if b < -1 then b else -1 | none => -1
+def posLoV (X : IR) : Int := match X.lo with | some a => if a > 1 then a else 1 | none => 1
+
+theorem split3_unfold (X : IR) : X.split3 =
+    if X.empty then (mkEmpty, mkEmpty, false, false, false)
+    else if posLoC X then (mkEmpty, X, false, false, true)
+    else if negHiC X then (X, mkEmpty, true, false, false)
+    else ((⟨X.lo, some (negHiV X)⟩ : IR), (⟨some (posLoV X), X.hi⟩ : IR),
+      !(IR.empty ⟨X.lo, some (negHiV X)⟩), X.containsZero, !(IR.empty ⟨some (posLoV X), X.hi⟩)) :=
+  rfl
+
+theorem pickBelow_valid {h h2 : Heap} (e : Ext h h2) {p : Option Addr} (vp : VO h p) (lim : Int)
+    {m : Addr} (hm : m < h2.size) : pickBelow p (valO h p) lim m < h2.size := by
+  cases p with
+  | none => exact hm
+  | some q =>
+    have := vp q rfl
+    have := e.1
+    simp only [pickBelow, valO, Option.map_some]
+    split <;> omega
+
+theorem pickAbove_valid {h h2 : Heap} (e : Ext h h2) {p : Option Addr} (vp : VO h p) (lim : Int)
+    {m : Addr} (hm : m < h2.size) : pickAbove p (valO h p) lim m < h2.size := by
+  cases p with
+  | none => exact hm
+  | some q =>
+    have := vp q rfl
+    have := e.1
+    simp only [pickAbove, valO, Option.map_some]
+    split <;> omega
+
+theorem get_pickBelow {h h2 : Heap} (e : Ext h h2) {p : Option Addr} (vp : VO h p) {lim : Int}
+    {m : Addr} (hm : h2.get m = lim) :
+    h2.get (pickBelow p (valO h p) lim m) =
+      (match valO h p with | some b => if b < lim then b else lim | none => lim) := by
+  cases p with
+  | none => exact hm
+  | some q =>
+    simp only [pickBelow, valO, Option.map_some]
+    split
+    · exact e.get (vp q rfl)
+    · exact hm
+
+theorem get_pickAbove {h h2 : Heap} (e : Ext h h2) {p : Option Addr} (vp : VO h p) {lim : Int}
+    {m : Addr} (hm : h2.get m = lim) :
+    h2.get (pickAbove p (valO h p) lim m) =
+      (match valO h p with | some a => if a > lim then a else lim | none => lim) := by
+  cases p with
+  | none => exact hm
+  | some q =>
+    simp only [pickAbove, valO, Option.map_some]
+    split
+    · exact e.get (vp q rfl)
+    · exact hm
+
+theorem split3Ways_tot {h : Heap} (g : GlobalsOK h) {x : HIR} (vx : VR h x) :
+    Tot (split3Ways x) h (Split3Is (viewAt h x).split3) := by
+  obtain ⟨vs, es⟩ := g.shared
+  unfold split3Ways
+  tot_view
+  rw [split3_unfold]
+  refine Tot.ite (fun c1 => ?_) (fun c1 => ?_)
+  · refine Tot.pure _ ⟨vs, vs, ?_⟩
+    simp only [c1, if_true, es]
+  refine Tot.ite (fun c2 => ?_) (fun c2 => ?_)
+  · have c2' : posLoC (viewAt h x) = true := c2
+    refine Tot.pure _ ⟨vs, vx, ?_⟩
+    simp only [c1, c2', if_true, if_false, es, Bool.false_eq_true]
+  refine Tot.ite (fun c3 => ?_) (fun c3 => ?_)
+  · have c2' : ¬ posLoC (viewAt h x) = true := c2
+    have c3' : negHiC (viewAt h x) = true := c3
+    refine Tot.pure _ ⟨vx, vs, ?_⟩
+    simp only [c1, c2', c3', if_true, if_false, es, Bool.false_eq_true]
+  have c2' : ¬ posLoC (viewAt h x) = true := c2
+  have c3' : ¬ negHiC (viewAt h x) = true := c3
+  simp only [c1, c2', c3', if_false, Bool.false_eq_true]
+  refine Tot.bind (Tot.alloc _) ?_
+  rintro m1 h1 x1 ⟨rfl, s1, g1⟩
+  refine Tot.bind (Tot.alloc _) ?_
+  rintro p1 h2 x2 ⟨rfl, s2, g2⟩
+  tot_view
+  tot_view
+  have gm1 : h2.get h.size = -1 := by rw [x2.get (by omega)]; exact g1
+  have x12 := x1.trans x2
+  obtain ⟨vl, vh⟩ := vx
+  have eN : viewAt h2 ⟨x.lo, some (pickBelow x.hi (viewAt h x).hi (-1) h.size)⟩
+      = ⟨(viewAt h x).lo, some (negHiV (viewAt h x))⟩ := by
+    simp only [viewAt_eq, valO_ext vl x12]
+    congr 1
+    simp only [valO, Option.map_some]
+    exact congrArg some (get_pickBelow x12 vh gm1)
+  have eP : viewAt h2 ⟨some (pickAbove x.lo (viewAt h x).lo 1 h1.size), x.hi⟩
+      = ⟨some (posLoV (viewAt h x)), (viewAt h x).hi⟩ := by
+    simp only [viewAt_eq, valO_ext vh x12]
+    congr 1
+    simp only [valO, Option.map_some]
+    exact congrArg some (get_pickAbove x12 vl g2)
+  refine Tot.pure _ ⟨⟨vl.ext x12, ?_⟩, ⟨?_, vh.ext x12⟩, ?_⟩
+  · simp only [VO_some]
+    exact pickBelow_valid x12 vh _ (by omega)
+  · simp only [VO_some]
+    exact pickAbove_valid x12 vl _ (by omega)
+  · simp only [eN, eP]
+
+/-! ### the cascades -/
+
+theorem optBlock_tot {h : Heap} (c : Bool) {blk : HBIP → HM HBIP} {B : BIP → BIP} {ret : HBIP}
+    (vr : VP h ret) (hb : c = true → Tot (blk ret) h (PairIs (B (valP h ret)))) :
+    Tot (optBlock c blk ret) h (PairIs (if c then B (valP h ret) else valP h ret)) := by
+  unfold optBlock
+  cases c
+  · simpa using Tot.pure (h := h) ret (P := PairIs (valP h ret)) ⟨vr, rfl⟩
+  · simpa using hb rfl
+
+theorem twoBlocks_tot {h : Heap} (c c1 c2 : Bool) {blk1 blk2 : HBIP → HM HBIP}
+    {B1 B2 : BIP → BIP} {ret : HBIP} (vr : VP h ret)
+    (h1 : c1 = true → ∀ h' r, Ext h h' → VP h' r → Tot (blk1 r) h' (PairIs (B1 (valP h' r))))
+    (h2 : c2 = true → ∀ h' r, Ext h h' → VP h' r → Tot (blk2 r) h' (PairIs (B2 (valP h' r)))) :
+    Tot (optBlock c (fun ret => do
+        let ret ← optBlock c1 blk1 ret
+        optBlock c2 blk2 ret) ret) h
+      (PairIs (twoBlocks c c1 c2 B1 B2 (valP h ret))) := by
+  refine Tot.mono (optBlock_tot c (B := fun p => twoBlocks true c1 c2 B1 B2 p) vr (fun _ => ?_)) ?_
+  · refine Tot.bind (optBlock_tot c1 vr (fun hc => h1 hc h ret (Ext.refl h) vr)) ?_
+    rintro r1 hA xA ⟨vA, eA⟩
+    refine Tot.mono (optBlock_tot c2 vA (fun hc => h2 hc hA r1 xA vA)) ?_
+    rintro r hB xB ⟨vB, eB⟩
+    refine ⟨vB, ?_⟩
+    rw [eB, eA]
+    simp [twoBlocks]
+  · rintro r hB xB ⟨vB, eB⟩
+    refine ⟨vB, ?_⟩
+    rw [eB]
+    cases c <;> simp [twoBlocks]
+
+theorem mulInit_tot {h : Heap} {x : HIR} (vx : VR h x) (shift hzx hzy : Bool) :
+    Tot (mulInit x shift hzx hzy) h (PairIs (Interval.mulInit (viewAt h x) shift hzx hzy)) := by
+  unfold mulInit Interval.mulInit
+  refine Tot.ite (fun c1 => ?_) (fun c1 => ?_)
+  · simp only [c1, if_true]; exact fromIntRange_tot h x vx
+  refine Tot.ite (fun c2 => ?_) (fun c2 => ?_)
+  · simp only [c1, c2, if_true, if_false]; exact zeroPair_tot h
+  · simp only [c1, c2, if_false]
+    exact Tot.pure _ ⟨⟨by simp [HBIP.new], by simp [HBIP.new]⟩, rfl⟩
+
+theorem zeroInit_tot (h : Heap) (hzx : Bool) :
+    Tot (zeroInit hzx) h (PairIs (if hzx then ⟨.fin 0, .fin 0⟩ else BIP.new)) := by
+  unfold zeroInit
+  refine Tot.ite (fun c1 => ?_) (fun c1 => ?_)
+  · simp only [c1, if_true]; exact zeroPair_tot h
+  · simp only [c1, if_false]
+    exact Tot.pure _ ⟨⟨by simp [HBIP.new], by simp [HBIP.new]⟩, rfl⟩
+
+/-! ### `mulLsh`, `TryLsh`, `TryQuo`, `TryRsh` -/
+
+theorem mulLsh_tot {h : Heap} (g : GlobalsOK h) {x y : HIR} (vx : VR h x) (vy : VR h y)
+    (shift : Bool) :
+    Tot (mulLsh x y shift) h (RangeIs (Interval.mulLsh (viewAt h x) (viewAt h y) shift)) := by
+  unfold mulLsh
+  tot_view
+  tot_view
+  rw [mulLsh_eq]
+  refine Tot.ite (fun c1 => ?_) (fun c1 => ?_)
+  · simp only [c1, if_true]; exact makeEmptyRange_tot h
+  refine Tot.ite (fun c2 => ?_) (fun c2 => ?_)
+  · simp only [c1, c2, if_true, if_false]; exact zeroRange_tot h
+  simp only [c1, c2, if_false]
+  generalize (if shift = true then bigLsh else fun x1 x2 => x1 * x2) = f
+  refine Tot.bind (split3Ways_tot g vx) ?_
+  rintro ⟨negX, posX, hnx, hzx, hpx⟩ h1 x1 ⟨vnx, vpx, esx⟩
+  refine Tot.bind (split3Ways_tot (g.ext x1) (vy.ext x1)) ?_
+  rintro ⟨negY, posY, hny, hzy, hpy⟩ h2 x2 ⟨vny, vpy, esy⟩
+  dsimp only at vnx vpx esx vny vpy esy
+  rw [viewAt_ext vy x1] at esy
+  rw [← esx, ← esy]
+  have x12 := x1.trans x2
+  have vnx2 := vnx.ext x2
+  have vpx2 := vpx.ext x2
+  have enx := viewAt_ext vnx x2
+  have epx := viewAt_ext vpx x2
+  simp only [← enx, ← epx]
+  have ini := mulInit_tot (vx.ext x12) shift hzx hzy
+  rw [viewAt_ext vx x12] at ini
+  refine Tot.bind ini ?_
+  rintro r0 h3 x3 ⟨v0, e0⟩
+  refine Tot.bind (twoBlocks_tot hnx hny hpy v0
+    (B1 := Interval.mulNN f (viewAt h2 negX) (viewAt h2 negY))
+    (B2 := Interval.mulNP f (viewAt h2 negX) (viewAt h2 posY)) ?_ ?_) ?_
+  · intro hc h' r e vr
+    have e' := x3.trans e
+    have := mulNN_tot (vnx2.ext e') (vny.ext e') vr f
+    rw [viewAt_ext vnx2 e', viewAt_ext vny e'] at this
+    exact this
+  · intro hc h' r e vr
+    have e' := x3.trans e
+    have := mulNP_tot (vnx2.ext e') (vpy.ext e') vr f
+    rw [viewAt_ext vnx2 e', viewAt_ext vpy e'] at this
+    exact this
+  rintro r1 h4 x4 ⟨v1, e1⟩
+  refine Tot.bind (twoBlocks_tot hpx hny hpy v1
+    (B1 := Interval.mulPN f (viewAt h2 posX) (viewAt h2 negY))
+    (B2 := Interval.mulPP f (viewAt h2 posX) (viewAt h2 posY)) ?_ ?_) ?_
+  · intro hc h' r e vr
+    have e' := (x3.trans x4).trans e
+    have := mulPN_tot (vpx2.ext e') (vny.ext e') vr f
+    rw [viewAt_ext vpx2 e', viewAt_ext vny e'] at this
+    exact this
+  · intro hc h' r e vr
+    have e' := (x3.trans x4).trans e
+    have := mulPP_tot (vpx2.ext e') (vpy.ext e') vr f
+    rw [viewAt_ext vpx2 e', viewAt_ext vpy e'] at this
+    exact this
+  rintro r2 h5 x5 ⟨v2, e2⟩
+  have := toIntRange_tot v2
+  rw [e2, e1, e0] at this
+  exact this
+
+/-- a `(z, ok)` result: valid pointers, and the values (or the failure) of the value model -/
+def OkIs (v : Option IR) (r : Option HIR) (h' : Heap) : Prop :=
+  (∀ z, r = some z → VR h' z) ∧ r.map (viewAt h') = v
+
+theorem okRange_tot {h : Heap} {m : HM HIR} {v : IR} (hm : Tot m h (RangeIs v)) :
+    Tot (okRange m) h (OkIs (some v)) := by
+  unfold okRange
+  refine Tot.bind hm ?_
+  rintro z h1 x1 ⟨vz, ez⟩
+  refine Tot.pure _ ⟨?_, ?_⟩
+  · intro z' e; cases e; exact vz
+  · simp only [Option.map_some, ez]
+
+theorem fail_tot (h : Heap) : Tot (Pure.pure none : HM (Option HIR)) h (OkIs none) :=
+  Tot.pure _ ⟨fun _ e => (by cases e), rfl⟩
+
+theorem tryLsh_tot {h : Heap} (g : GlobalsOK h) {x y : HIR} (vx : VR h x) (vy : VR h y) :
+    Tot (tryLsh x y) h (OkIs (Interval.tryLsh (viewAt h x) (viewAt h y))) := by
+  unfold tryLsh Interval.tryLsh
+  tot_view
+  tot_view
+  refine Tot.ite (fun c1 => ?_) (fun c1 => ?_)
+  · simp only [c1, if_true]; exact fail_tot h
+  · simp only [c1, if_false]; exact okRange_tot (mulLsh_tot g vx vy true)
+
+theorem tryQuo_tot {h : Heap} (g : GlobalsOK h) {x y : HIR} (vx : VR h x) (vy : VR h y) :
+    Tot (tryQuo x y) h (OkIs (Interval.tryQuo (viewAt h x) (viewAt h y))) := by
+  unfold tryQuo
+  tot_view
+  tot_view
+  rw [tryQuo_eq]
+  refine Tot.ite (fun c1 => ?_) (fun c1 => ?_)
+  · simp only [c1, if_true]; exact okRange_tot (makeEmptyRange_tot h)
+  refine Tot.ite (fun c2 => ?_) (fun c2 => ?_)
+  · simp only [c1, c2, if_true, if_false]; exact fail_tot h
+  refine Tot.ite (fun c3 => ?_) (fun c3 => ?_)
+  · simp only [c1, c2, c3, if_true, if_false]; exact okRange_tot (zeroRange_tot h)
+  simp only [c1, c2, c3, if_false]
+  refine Tot.bind (split3Ways_tot g vx) ?_
+  rintro ⟨negX, posX, hnx, hzx, hpx⟩ h1 x1 ⟨vnx, vpx, esx⟩
+  refine Tot.bind (split3Ways_tot (g.ext x1) (vy.ext x1)) ?_
+  rintro ⟨negY, posY, hny, hzy, hpy⟩ h2 x2 ⟨vny, vpy, esy⟩
+  dsimp only at vnx vpx esx vny vpy esy
+  rw [viewAt_ext vy x1] at esy
+  rw [← esx, ← esy]
+  have vnx2 := vnx.ext x2
+  have vpx2 := vpx.ext x2
+  have enx := viewAt_ext vnx x2
+  have epx := viewAt_ext vpx x2
+  simp only [← enx, ← epx]
+  have ey : (viewAt h y).empty = false := by
+    cases hxe : (viewAt h x).empty <;> cases hye : (viewAt h y).empty <;> simp_all
+  have SY := split3_spec (viewAt h y) ey _ _ _ _ _ esy.symm
+  have negdiv : hny = true → NegDiv (viewAt h2 negY) := fun hc => by
+    obtain ⟨q1, k, hk, kneg, mk⟩ := SY.neg_shape hc
+    refine ⟨by rw [hk]; simp only [Option.getD_some]; omega, fun v hv => ?_⟩
+    rw [q1] at hv
+    have := mk.1
+    rw [hv] at this
+    simp only [loLe_some] at this
+    omega
+  have posdiv : hpy = true → PosDiv (viewAt h2 posY) := fun hc => by
+    obtain ⟨q1, l, hl, lpos, ml⟩ := SY.pos_shape hc
+    refine ⟨by rw [hl]; simp only [Option.getD_some]; omega, fun v hv => ?_⟩
+    rw [q1] at hv
+    have := ml.2
+    rw [hv] at this
+    simp only [leHi_some] at this
+    omega
+  refine Tot.bind (zeroInit_tot h2 hzx) ?_
+  rintro r0 h3 x3 ⟨v0, e0⟩
+  refine Tot.bind (twoBlocks_tot hnx hny hpy v0
+    (B1 := Interval.quoNN (viewAt h2 negX) (viewAt h2 negY))
+    (B2 := Interval.quoNP (viewAt h2 negX) (viewAt h2 posY)) ?_ ?_) ?_
+  · intro hc h' r e vr
+    have e' := x3.trans e
+    have := quoNN_tot (vnx2.ext e') (vny.ext e') vr
+    rw [viewAt_ext vnx2 e', viewAt_ext vny e'] at this
+    exact this (negdiv hc)
+  · intro hc h' r e vr
+    have e' := x3.trans e
+    have := quoNP_tot (vnx2.ext e') (vpy.ext e') vr
+    rw [viewAt_ext vnx2 e', viewAt_ext vpy e'] at this
+    exact this (posdiv hc)
+  rintro r1 h4 x4 ⟨v1, e1⟩
+  refine Tot.bind (twoBlocks_tot hpx hny hpy v1
+    (B1 := Interval.quoPN (viewAt h2 posX) (viewAt h2 negY))
+    (B2 := Interval.quoPP (viewAt h2 posX) (viewAt h2 posY)) ?_ ?_) ?_
+  · intro hc h' r e vr
+    have e' := (x3.trans x4).trans e
+    have := quoPN_tot (vpx2.ext e') (vny.ext e') vr
+    rw [viewAt_ext vpx2 e', viewAt_ext vny e'] at this
+    exact this (negdiv hc)
+  · intro hc h' r e vr
+    have e' := (x3.trans x4).trans e
+    have := quoPP_tot (vpx2.ext e') (vpy.ext e') vr
+    rw [viewAt_ext vpx2 e', viewAt_ext vpy e'] at this
+    exact this (posdiv hc)
+  rintro r2 h5 x5 ⟨v2, e2⟩
+  have := okRange_tot (toIntRange_tot v2)
+  rw [e2, e1, e0] at this
+  exact this
+
+theorem tryRsh_tot {h : Heap} (g : GlobalsOK h) {x y : HIR} (vx : VR h x) (vy : VR h y) :
+    Tot (tryRsh x y) h (OkIs (Interval.tryRsh (viewAt h x) (viewAt h y))) := by
+  unfold tryRsh
+  tot_view
+  tot_view
+  rw [tryRsh_eq]
+  refine Tot.ite (fun c1 => ?_) (fun c1 => ?_)
+  · simp only [c1, if_true]; exact okRange_tot (makeEmptyRange_tot h)
+  refine Tot.ite (fun c2 => ?_) (fun c2 => ?_)
+  · simp only [c1, c2, if_true, if_false]; exact fail_tot h
+  refine Tot.ite (fun c3 => ?_) (fun c3 => ?_)
+  · simp only [c1, c2, c3, if_true, if_false]; exact okRange_tot (zeroRange_tot h)
+  simp only [c1, c2, c3, if_false]
+  refine Tot.bind (split3Ways_tot g vx) ?_
+  rintro ⟨negX, posX, hnx, hzx, hpx⟩ h1 x1 ⟨vnx, vpx, esx⟩
+  dsimp only at vnx vpx esx
+  rw [← esx]
+  dsimp only
+  refine Tot.bind (zeroInit_tot h1 hzx) ?_
+  rintro r0 h3 x3 ⟨v0, e0⟩
+  have e13 := x1.trans x3
+  have hN := optBlock_tot hnx (B := Interval.rshN (viewAt h1 negX) (viewAt h y)) v0 (fun _ => by
+    have := rshN_tot (vnx.ext x3) (vy.ext e13) v0
+    rw [viewAt_ext vnx x3, viewAt_ext vy e13] at this
+    exact this)
+  refine Tot.bind hN ?_
+  rintro r1 h4 x4 ⟨v1, e1⟩
+  have e34 := x3.trans x4
+  have e14 := x1.trans e34
+  have hP := optBlock_tot hpx (B := Interval.rshP (viewAt h1 posX) (viewAt h y)) v1 (fun _ => by
+    have := rshP_tot (vpx.ext e34) (vy.ext e14) v1
+    rw [viewAt_ext vpx e34, viewAt_ext vy e14] at this
+    exact this)
+  refine Tot.bind hP ?_
+  rintro r2 h5 x5 ⟨v2, e2⟩
+  have := okRange_tot (toIntRange_tot v2)
+  rw [e2, e1, e0] at this
+  exact this
+
+/-! ### `setup` produces heaps that satisfy the hypotheses (for all operand values) -/
+
+theorem globalsHeap_ok : GlobalsOK globalsHeap := by
+  unfold GlobalsOK
+  decide
+
+theorem put_spec (h : Heap) (v : Option Int) :
+    Ext h (put h v).2 ∧ VO (put h v).2 (put h v).1 ∧ valO (put h v).2 (put h v).1 = v := by
+  cases v with
+  | none => exact ⟨Ext.refl h, by simp [put], rfl⟩
+  | some v =>
+    refine ⟨⟨by simp [put], fun i hi => ?_⟩, ?_, ?_⟩
+    · have : i ≠ h.size := Nat.ne_of_lt hi
+      simp [put, Array.getElem?_push, this]
+    · simp [put]
+    · simp [put, valO, Heap.get]
+
+/-- for ALL operand values `X`, `Y`: the heap built by `setup` holds the package-level objects,
+the operand pointers are valid, and the values behind them are `X` and `Y` -/
+theorem setup_spec (X Y : IR) :
+    GlobalsOK (setup X Y).2.2 ∧ VR (setup X Y).2.2 (setup X Y).1 ∧
+    VR (setup X Y).2.2 (setup X Y).2.1 ∧
+    viewAt (setup X Y).2.2 (setup X Y).1 = X ∧ viewAt (setup X Y).2.2 (setup X Y).2.1 = Y := by
+  obtain ⟨ea, va, ua⟩ := put_spec globalsHeap X.lo
+  obtain ⟨eb, vb, ub⟩ := put_spec (put globalsHeap X.lo).2 X.hi
+  obtain ⟨ec, vc, uc⟩ := put_spec (put (put globalsHeap X.lo).2 X.hi).2 Y.lo
+  obtain ⟨ed, vd, ud⟩ := put_spec (put (put (put globalsHeap X.lo).2 X.hi).2 Y.lo).2 Y.hi
+  have ecd := ec.trans ed
+  have ebd := eb.trans ecd
+  refine ⟨globalsHeap_ok.ext (ea.trans ebd), ⟨va.ext ebd, vb.ext ecd⟩, ⟨vc.ext ed, vd⟩, ?_, ?_⟩
+  · show IR.mk _ _ = X
+    obtain ⟨xl, xh⟩ := X
+    congr 1
+    · exact (valO_ext va ebd).trans ua
+    · exact (valO_ext vb ecd).trans ub
+  · show IR.mk _ _ = Y
+    obtain ⟨yl, yh⟩ := Y
+    congr 1
+    exact (valO_ext vc ed).trans uc
 
 end WuffsVerif.IntervalHeap
